@@ -28,7 +28,7 @@ pub(crate) fn new_tr<'a>(reg: &'a Registry, self_ty: Option<String>, prefix: &st
 }
 
 /// every `quote! { .. }` of the derive, as token streams
-fn quote_templates(mac_file: &File) -> Vec<TokenStream> {
+pub(crate) fn quote_templates(mac_file: &File) -> Vec<TokenStream> {
     use syn::visit::Visit;
     struct V(Vec<TokenStream>);
     impl<'ast> Visit<'ast> for V {
@@ -48,7 +48,7 @@ fn squash(ts: &TokenStream) -> String {
 }
 
 /// the one template whose text contains every `has` and none of `not`
-fn pick<'t>(ts: &'t [TokenStream], what: &str, has: &[&str], not: &[&str]) -> Res<&'t TokenStream> {
+pub(crate) fn pick<'t>(ts: &'t [TokenStream], what: &str, has: &[&str], not: &[&str]) -> Res<&'t TokenStream> {
     let c: Vec<&TokenStream> = ts.iter().filter(|t| {
         let s = squash(t);
         has.iter().all(|h| s.contains(h)) && !not.iter().any(|n| s.contains(n))
@@ -61,7 +61,7 @@ fn pick<'t>(ts: &'t [TokenStream], what: &str, has: &[&str], not: &[&str]) -> Re
 
 /// `quote!` interpolation: `#name` → `subst[name]`; `#( .. )*` / `#( .. ),*` → `subst["(<inner>)"]` (`#( #doc )*` → nothing);
 /// `#[attr]` is kept
-fn interp(ts: &TokenStream, subst: &HashMap<String, TokenStream>) -> Res<TokenStream> {
+pub(crate) fn interp(ts: &TokenStream, subst: &HashMap<String, TokenStream>) -> Res<TokenStream> {
     let toks: Vec<TokenTree> = ts.clone().into_iter().collect();
     let mut out = TokenStream::new();
     let mut i = 0;
@@ -111,7 +111,7 @@ fn interp(ts: &TokenStream, subst: &HashMap<String, TokenStream>) -> Res<TokenSt
     Ok(out)
 }
 
-fn ts(s: &str) -> TokenStream {
+pub(crate) fn ts(s: &str) -> TokenStream {
     s.parse().unwrap()
 }
 
